@@ -3,5 +3,5 @@ CONSTANTS
   MaxClocks = 3
   Overlap = TRUE
   Fault = "none"
-INVARIANTS TypeOK BusyIsEnabled ByDeadline ExactlyOncePrefix InTimeCounted NoStuckLeak SecondCallRefused CounterRestored
+INVARIANTS Emit TypeOK BusyIsEnabled ByDeadline ExactlyOncePrefix InTimeCounted NoStuckLeak SecondCallRefused CounterRestored
 PROPERTIES NoLeak
